@@ -161,6 +161,7 @@ def check(prop, tier, seed):
     rep = Report(prop, tier, seed)
     n = common.tier_n(tier, 3000, 40000)
     items = common.choose_items(prop, tier, seed, n, mode_fraction=0.10, mode_cap=150 if tier == "quick" else 500)
+    items += [{"b": k} for k in range(len(universe.battery()))]
     pairs = common.run_campaign(rep, items)
     counters = collections.Counter()
     opts_seen = set()
